@@ -38,10 +38,13 @@ RULE = ('(a) every registered numeric dtype (numpy built-ins + every ml_dtypes s
         '(c) every container position of every tree of (b) x {drop each key, surplus key / length+1 / surplus field, '
         'rename each key or field, reversed key order, swap the values of equal-shaped '
         'siblings} x {from_state_dict, from_bytes}; non-trivial = every edit; '
+        '(d) lists / tuples of 9-13 distinguishable leaves (index keys beyond 9) at the top and inside '
+        'dict / FrozenDict / dataclass / namedtuple / nested, both round trips, length +-1 rejected; '
+        '(e) non-native byte order x 8 dtypes x shapes x layouts x thresholds; '
         'distinct = distinct (dtype, shape, layout, kind, threshold) / (tree) / (tree, position, edit)')
 ASSUMPTIONS = [
   'leaf class is not compared (jax arrays restore as numpy arrays); dtype, shape and row-major bytes are',
-  'byte-swapped (non-native endian) dtypes, object / structured dtypes and Python ints beyond 64 bits are outside the alphabet',
+  'object / structured dtypes and Python ints beyond 64 bits are outside the alphabet',
   'only the mismatch classes the property names are asserted to raise ValueError; same-length lists with '
   'wrong index keys and leaf-vs-container confusions are not asserted',
   'thorough height-3 trees are the spine family (one height-2 subtree, leaf sibling); the full height-3 space (~1.6e9) is not enumerated',
@@ -72,6 +75,7 @@ def units(tier, seed):
   us = [dict(part='leaf', dtype=n) for n in T.all_dtype_names()]
   us.append(dict(part='pyleaf'))
   us.append(dict(part='byteorder'))
+  us.append(dict(part='wide'))
   n2 = len(T.trees(2))
   step = 200 if tier == 'quick' else 400
   for lo in range(0, n2, step):
@@ -132,6 +136,8 @@ def run_unit(unit):
     _run_pyleaves(res, seed, tier)
   elif part == 'byteorder':
     _run_byteorder(res, seed)
+  elif part == 'wide':
+    _run_wide(res, seed)
   elif part == 'tree2':
     specs = _trees2()[unit['lo']:unit['hi']]
     for i, spec in enumerate(specs):
@@ -489,6 +495,99 @@ def _run_tree(res, spec, seed, tier, sample=False):
                                           for p, nd in T.positions(spec)
                                           for n, _, _ in T.edits(nd)][:24],
                                bytes=None if b0 is _FAILED else len(b0)))
+
+
+def _run_wide(res, seed):
+  """Sequences with more than ten entries (index keys '10', '11' sort before '2' as strings):
+  lists / tuples of 9-13 distinguishable leaves at the top, inside a dict, a FrozenDict, a
+  struct dataclass field and a namedtuple field; state-dict and msgpack round trips, plus
+  rejection of a state dict with one entry too few or too many."""
+  import jax
+  import flax
+  from flax import struct
+  from flax.core import freeze
+  import collections
+  ser = _S['ser']
+  NT = collections.namedtuple('NT', ['items', 'tag'])
+
+  @struct.dataclass
+  class DC:
+    items: object
+    tag: object
+
+  def leaf(i):
+    # distinguishable by value and (every third) by shape / dtype
+    if i % 3 == 0:
+      return np.asarray([i + seed % 2, -i], np.int32)
+    if i % 3 == 1:
+      return np.float32(i + 0.5)
+    return np.asarray([[i]], np.float64)
+
+  wrappers = {
+    'top': lambda seq: seq,
+    'dict': lambda seq: {'k': seq, 'z': np.float32(1)},
+    'fd': lambda seq: freeze({'k': seq}),
+    'dc': lambda seq: DC(items=seq, tag=np.int32(7)),
+    'nt': lambda seq: NT(items=seq, tag=np.int32(7)),
+    'nested': lambda seq: [seq, tuple(seq)],
+  }
+
+  def flat(t):
+    return [(jax.tree_util.keystr(p), np.asarray(l).dtype.str, np.asarray(l).shape,
+             np.asarray(l).tolist()) for p, l in jax.tree_util.tree_leaves_with_path(t)]
+
+  for n in (9, 10, 11, 12, 13):
+    for kind in (list, tuple):
+      seq = kind(leaf(i) for i in range(n))
+      zero = kind(np.zeros_like(leaf(i)) for i in range(n))
+      for wn, w in wrappers.items():
+        obj, tgt = w(seq), w(zero)
+        key = f'wide|{kind.__name__}|n={n}|{wn}'
+        res['evals'] += 2
+        try:
+          sd = ser.to_state_dict(obj)
+          r1 = ser.from_state_dict(tgt, sd)
+          r2 = ser.from_bytes(tgt, ser.to_bytes(obj))
+        except Exception as e:  # noqa
+          core.violation(res, 'wide-raises|' + key, f'{type(e).__name__}: {e}'[:300],
+                         dict(kind=kind.__name__, n=n, wrapper=wn))
+          continue
+        for nm, r in (('state_dict', r1), ('bytes', r2)):
+          if flat(r) != flat(obj) or jax.tree.structure(r) != jax.tree.structure(obj):
+            bad = [a[0] for a, b in zip(flat(r), flat(obj)) if a != b][:4]
+            core.violation(res, f'wide-{nm}|' + key,
+                           f'round trip through {nm} does not return the original sequence '
+                           f'(first differing leaves: {bad})',
+                           dict(kind=kind.__name__, n=n, wrapper=wn))
+        # wrong length must be rejected, never absorbed positionally
+        if wn == 'top':
+          for dn in (-1, 1):
+            res['evals'] += 1
+            short = kind(np.zeros_like(leaf(i)) for i in range(n + dn))
+            try:
+              ser.from_state_dict(short, sd)
+              core.violation(res, f'wide-accepts|{key}|{dn:+d}',
+                             f'a state dict of {n} entries was accepted for a target of {n + dn}',
+                             dict(kind=kind.__name__, n=n))
+            except ValueError:
+              core.outcome(res, 'wide:length-mismatch-rejected')
+            except Exception as e:  # noqa
+              core.outcome(res, 'wide:length-mismatch-' + type(e).__name__)
+          # keys that are not the indices must be rejected as well
+          res['evals'] += 1
+          ren = {('x' + k): v for k, v in sd.items()}
+          try:
+            ser.from_state_dict(tgt, ren)
+            # observed only (see ASSUMPTIONS: wrong index keys are not a named mismatch class)
+            core.outcome(res, 'wide:bad-keys-accepted')
+          except (ValueError, KeyError):
+            core.outcome(res, 'wide:bad-keys-rejected')
+          except Exception as e:  # noqa
+            core.outcome(res, 'wide:bad-keys-' + type(e).__name__)
+        core.outcome(res, 'wide:ok')
+        if n > 10:
+          res['nontrivial'].append(core.h(key))
+  res['samples'].append(dict(part='wide', lengths=[9, 10, 11, 12, 13]))
 
 
 def _run_byteorder(res, seed):
